@@ -443,6 +443,9 @@ func genGL(t *rapid.T, hostile bool) glSpec {
 				r.B, r.I, r.U = m&1 > 0, m&2 > 0, m&4 > 0
 				if m&8 > 0 {
 					r.Color = rapid.SampledFrom([]string{"#ff0000", "#00ffff", "red"}).Draw(t, "color")
+					if hostile && rapid.IntRange(0, 2).Draw(t, "oddcolor") == 0 {
+						r.Color = rapid.SampledFrom([]string{"#", "#f", "#f00", "#12345", "#ffffffffff", "rgb(", "rgba(1,2", " ", "&", "#FF00AB", "\x00"}).Draw(t, "oddcolorv")
+					}
 				}
 				if m&16 > 0 {
 					// like real cue text: keep a prefix of the previous run's tag stack, then open new tags
@@ -462,6 +465,13 @@ func genGL(t *rapid.T, hostile bool) glSpec {
 					r.Style = ids[rapid.IntRange(0, ns-1).Draw(t, "runstyleid")]
 				}
 				r.TTML = genAttrs(t, "rttml2", 2)
+				if hostile && rapid.IntRange(0, 3).Draw(t, "oddttmlcolor") == 0 {
+					// colour values no format defines (cut short, one digit too many, empty)
+					if r.TTML == nil {
+						r.TTML = map[string]string{}
+					}
+					r.TTML["color"] = rapid.SampledFrom([]string{"#", "#f", "#f00", "#12345", "#ffffffffff", "rgb(", "rgba(1,2", " ", "", "&"}).Draw(t, "oddttmlcolorv")
+				}
 				if rapid.IntRange(0, 2).Draw(t, "stlflags") == 0 {
 					f := rapid.IntRange(0, 7).Draw(t, "stlf")
 					r.StlI, r.StlU, r.StlB = f&1 > 0, f&2 > 0, f&4 > 0
